@@ -92,10 +92,13 @@ def gen_specs(rng, solver, df, pen, seed, rep):
         if solver == "GramCD":
             knobs["greedy_cd"] = bool(rng.integers(0, 2))
             knobs["use_acc"] = (not knobs["greedy_cd"]) and bool(rng.integers(0, 2))
+        n_tasks = int(rng.integers(1, 4))
+        if df == "QuadraticMultiTask" and rng.random() < 0.4:
+            yc, n_tasks = "zero_task", int(rng.integers(2, 4))
         spec = dict(check="C19", seed=seed, coords=[solver, str(df), pen, rep, k], solver=solver, datafit=df,
                     penalty=pen, storage=storage, fit_intercept=icpt, strategy=strategy, n=n, p=p,
                     xkind=str(rng.choice(["gauss", "ar"])), rho=0.9, alpha_frac=float(rng.choice([0.05, 0.3, 1.2])),
-                    knobs=knobs, n_tasks=int(rng.integers(1, 4)), mutate_y=yc,
+                    knobs=knobs, n_tasks=n_tasks, mutate_y=yc,
                     warm=str(rng.choice(["cold", "zero", "dense"])), degenerate=str(xc), shape=shape,
                     group_style=str(rng.choice(["contig", "perm"])))
         if xc and xc.startswith("zero_group"):
